@@ -82,6 +82,13 @@ def run(check: Check):
           check.ob('R-ATOMIC.unbuffered', fi, txt(c)[:80], False,
                    'an unbuffered file object may accept fewer bytes than it is handed (disk full, size limit) without raising; the short '
                    'file is then renamed into place as complete', node=c, exact=True)
+    seeks = [c for _, c in ff.calls() if isinstance(c.func, ast.Attribute) and c.func.attr == 'seek' and len(c.args) >= 2]
+    truncs = [c for _, c in ff.calls() if isinstance(c.func, ast.Attribute) and c.func.attr == 'truncate']
+    writes_ = [c for _, c in ff.calls() if isinstance(c.func, ast.Attribute) and c.func.attr == 'write']
+    if seeks and writes_ and not truncs:
+      check.ob('R-ATOMIC.holes', fi, txt(seeks[0])[:60], False,
+               'the writer skips ahead with seek() instead of writing: a skipped run at the end of the data leaves the file short unless '
+               'it is extended with truncate() before it is published', node=seeks[0], exact=True)
     for call, where in aa.renames_on_failure_path(ff):
       check.ob('R-ATOMIC.finally', fi, txt(call)[:80], False,
                f'the rename that publishes the file sits in a `{where}` block: it also runs while an exception (Ctrl-C included) is '
